@@ -912,15 +912,16 @@ class Gaussian(Funsor, metaclass=GaussianMeta):
             new_ints = OrderedDict()
             kept_perm = []
             reduced_perm = []
-            for i, (k, v) in enumerate(self.inputs.items()):
+            for k, v in self.inputs.items():
                 if k not in reduced_vars:
                     inputs[k] = v
                 if v.dtype == "real":
-                    if v in reduced_vars:
+                    if k in reduced_vars:
                         raise ValueError(
-                            f"Cannot sum along a real dimension: {repr(v)}"
+                            f"Cannot sum along a real dimension: {repr(k)}"
                         )
                 else:
+                    i = len(old_ints)  # position among batch dims, not among inputs
                     old_ints[k] = v
                     if k in reduced_vars:
                         reduced_perm.append(i)
